@@ -39,6 +39,10 @@ type HarnessSpec struct {
 	Assumptions []string          `json:"assumptions"`
 	Witness     bool              `json:"witness"` // vacuity twin: its final Assert(false) must be violated
 	Hang        bool              `json:"hang_is_violation"`
+	// NativeRewrite: for native replays only, regular-expression rewrites applied to the
+	// non-test sources of the harness package (through the go test overlay), so that calls
+	// the engine redirects also reach the harness's injection points natively.
+	NativeRewrite map[string]string `json:"native_rewrite"`
 }
 
 type PropSpec struct {
@@ -58,7 +62,7 @@ type Index struct {
 type Finding struct {
 	Property string `json:"property"`
 	Harness  string `json:"harness"`
-	Match    string `json:"match"` // regexp on "kind: msg"
+	Match    string `json:"match"`  // regexp on "kind: msg"
 	Status   string `json:"status"` // known | fixed
 	What     string `json:"what"`
 	Commit   string `json:"commit,omitempty"`
